@@ -48,6 +48,15 @@ fn main() {
         }
     }
     rv::phook::install();
+    if cmd == "c11sub" {
+        let code = rv::c11::sub_main(&args.extra[0], &args.extra[1]);
+        std::process::exit(code);
+    }
+    if cmd == "c11batch" {
+        let first = args.extra.get(2).and_then(|s| s.parse().ok()).unwrap_or(0);
+        let code = rv::c11::batch_main(&args.extra[0], &args.extra[1], first);
+        std::process::exit(code);
+    }
     if cmd == "selftest" {
         let mut failed = false;
         for (name, r) in rv::selftests() {
